@@ -16,8 +16,10 @@ def fhex(x):
         if math.isnan(x):
             return "nan"
         return float(x).hex()
+    if isinstance(x, (bool, np.bool_)):
+        return str(bool(x))
     if isinstance(x, (int, np.integer)):
-        return str(int(x))
+        return float(int(x)).hex()
     return str(x)
 
 
